@@ -101,18 +101,19 @@ type Exec struct {
 
 // Result is what one execution produced (besides what the harness observed).
 type Result struct {
-	Choices    []int
-	Cost       int
-	Steps      int
-	Deadlock   bool     // some thread blocked forever (reported only if thread 0 did not finish or asked)
-	Blocked    []string // blocked operations at the end
-	Panics     []string
-	Recovered  []string // panics recovered by GoWithRecover-style handlers of the code under test
-	StepLimit  bool
-	Trace      []string
-	Diverged   string
-	NumThreads int
-	points     []pointRec
+	Choices        []int
+	Cost           int
+	Steps          int
+	Deadlock       bool     // some thread blocked forever (reported only if thread 0 did not finish or asked)
+	Blocked        []string // blocked operations at the end
+	Panics         []string
+	Recovered      []string // panics recovered by GoWithRecover-style handlers of the code under test
+	StepLimit      bool
+	StepLimitStack string // stack of the thread that was running when the step limit was hit
+	Trace          []string
+	Diverged       string
+	NumThreads     int
+	points         []pointRec
 }
 
 var current atomic.Pointer[Exec]
@@ -357,6 +358,8 @@ func (x *Exec) switchFrom(self *Thread, finished bool) {
 	}
 	if x.steps > x.maxSteps {
 		x.res.StepLimit = true
+		buf := make([]byte, 8192)
+		x.res.StepLimitStack = string(buf[:runtime.Stack(buf, false)])
 		x.end()
 		if !finished {
 			runtime.Goexit()
